@@ -378,7 +378,7 @@ package cl
 
 // ---------------------------------------------------------------------------
 // C14: sequence functions honour their keywords.
-//@ stable-struct cl.seqFunVars cl.dupInfo cl.control
+//@ stable-struct cl.seqFunVars cl.dupInfo cl.control cl.subRep
 
 // The keyword parser shared by find position count remove delete substitute
 // (and their -if forms): each field is set from the value that follows its own
@@ -446,6 +446,16 @@ package cl
 //@   requires start-nonneg: sfv.start >= 0
 //@   loop i<sfv.end: invariant counted: 0 <= count && sfv.start <= i && count <= i - sfv.start && sfv.end <= len(seq)
 //@   loop sfv.start<=i: invariant counted: 0 <= count && i < sfv.end && count <= sfv.end - 1 - i && sfv.end <= len(seq)
+
+// substitute / substitute-if (and the n- forms): :count limits the number of
+// replacements, not the number of elements looked at; the test receives the old
+// item first and the keyed element second.
+//@ func cl.(*subRep).maybe
+//@   property C14
+//@   on-call Call#2 test-gets-old-then-key: len($arg1) == 2 && $arg1[0] == sr.old && $arg1[1] == v
+//@   on-call ObjectEqual default-test-gets-old-then-key: $arg0 == sr.old && $arg1 == v
+//@   ensures count-is-spent-only-on-a-replacement: sr.count < old(sr.count) ==> seq[i] == sr.rep
+//@   ensures exhausted-count-replaces-nothing: old(sr.count) <= 0 ==> result0
 
 // assoc / rassoc / member / adjoin: the two-argument test receives the item
 // first and the (keyed) element second.
